@@ -282,6 +282,25 @@ CHECKS = {
               "fix: dc0d341; psd.interp end-point round-off, fix: 161f28c)."),
         technique="TLA+ integer band/index/tick models decided by TLC and replayed exhaustively; definition terms (quadrature, FIR) evaluated by the generic evaluator",
     ),
+    "C14": dict(
+        cat="exploration",
+        text=("specs/CoordSys.tla: every chain topology of 3 coordinate systems (type R/C/S x reference = basic or an earlier system: "
+              "162 topologies, WellFounded checked by TLC) with T(k), O(k) exported as terms over the A, B, C point symbols through the "
+              "reference chain, and the type-generic definitions Rect, Basic, Frame (a grid's displacement frame from geometry alone: "
+              "radial / tangential unit vectors, no angles) and the rigid-body rows [G', -G' skew(r); 0, G']. Every topology is "
+              "instantiated with seeded points and built in pyYeti by build_coords, by nested 4x3 cards found by id in the growing "
+              "USET table, and queried: coordinfo = (O, T); basic location of grids entered in every system; getcoordinates in EVERY "
+              "system maps back (through the spec's Basic) to the same point and returns the entered numbers in the definition "
+              "system; rbgeom_uset rows (reference = xyz and = grid id) vs the spec rows; blockdiag(G) rb = rbgeom; rbmove; rbcoords; "
+              "formrbe3 (three independent-DOF selections with weights; determinate or over-determinate) reproduces rigid motion; "
+              "replace_basic_cs preserves distances, relative orientations and rigid-body modes about the moved point; scalar "
+              "points and q-set grids stay zero."),
+        ref="4/C14",
+        note=("Trusted: TLC, mpmath (30 digits), generic evaluator. Locations away from the polar singularities (as the statement says). "
+              "Quick: 5 (input, output) system pairs per topology; thorough: all 16 pairs twice. One genuine defect repaired "
+              "(replace_basic_cs under pandas 3, fix: 652b3a2)."),
+        technique="TLA+ topology lattice with geometry definition terms (TLC) evaluated at 30 digits against every construction route; rigid-motion laws",
+    ),
     "C03": dict(
         cat="exploration",
         text=("specs/Srs.tla: the option lattice 6 stype x 4 ic x 3 time x 6 peak x eqsine (864 points), the integer index model "
